@@ -1,6 +1,7 @@
 """C12 gcd, integer roots and integer logarithms satisfy their defining inequalities."""
 import json
 import os
+import shutil
 import threading
 from concurrent.futures import ThreadPoolExecutor
 
@@ -379,4 +380,6 @@ def selftest(ctx):
     ok = v0["bad"] == [] and got == [1, 2, 4, 6, 7, 8]
     print("SELFTEST %s: clean trace flagged %s; corrupted events [1, 2, 4, 6, 7, 8] -> monitor flagged %s (%s)" %
           ("PASS" if ok else "FAIL", [b["i"] for b in v0["bad"]], got, [b["why"] for b in v["bad"]]))
+    if ok:
+        shutil.rmtree(ctx.rundir, ignore_errors=True)
     return 0 if ok else 2
